@@ -2488,23 +2488,45 @@ class XonshParser(Parser):
         return None
 
     def any_cmd(self) -> Any | None:
-        # any_cmd: cmd_name | WS | KEYWORD
-        return self.seq_alts(
-            self.cmd_name,
-            (self.token, "WS"),
-            self.keyword,
-        )
-
-    def cmd_group(self) -> Any | None:
-        # cmd_group: ('(' | '!(' | '$(') any_cmd* ')' | ('[' | '![' | '$[') any_cmd* ']'
+        # any_cmd: !'(' !'[' !'!(' !'![' !'$(' !'$[' cmd_name | WS | KEYWORD
         mark = self._mark()
-        if (a := self._tmp_37()) and (b := self.repeated(self.any_cmd),) and (c := self.expect(")")):
-            return "".join(i.string for i in [a, *b, c])
+        if (
+            (self.negative_lookahead(self.expect, "("))
+            and (self.negative_lookahead(self.expect, "["))
+            and (self.negative_lookahead(self.expect, "!("))
+            and (self.negative_lookahead(self.expect, "!["))
+            and (self.negative_lookahead(self.expect, "$("))
+            and (self.negative_lookahead(self.expect, "$["))
+            and (cmd_name := self.cmd_name())
+        ):
+            return cmd_name
         self._reset(mark)
-        if (a := self._tmp_38()) and (b := self.repeated(self.any_cmd),) and (c := self.expect("]")):
-            return "".join(i.string for i in [a, *b, c])
+        if _ws := self.token("WS"):
+            return _ws
+        self._reset(mark)
+        if keyword := self.keyword():
+            return keyword
         self._reset(mark)
         return None
+
+    @memoize
+    def cmd_group(self) -> Any | None:
+        # cmd_group: ('(' | '!(' | '$(') cmd_group_item* ')' | ('[' | '![' | '$[') cmd_group_item* ']'
+        mark = self._mark()
+        if (a := self._tmp_37()) and (b := self.repeated(self.cmd_group_item),) and (c := self.expect(")")):
+            return "".join((i if isinstance(i, str) else i.string for i in [a, *b, c]))
+        self._reset(mark)
+        if (a := self._tmp_38()) and (b := self.repeated(self.cmd_group_item),) and (c := self.expect("]")):
+            return "".join((i if isinstance(i, str) else i.string for i in [a, *b, c]))
+        self._reset(mark)
+        return None
+
+    def cmd_group_item(self) -> Any | None:
+        # cmd_group_item: cmd_group | any_cmd
+        return self.seq_alts(
+            self.cmd_group,
+            self.any_cmd,
+        )
 
     def slices(self) -> Any | None:
         # slices: slice !',' | ','.(slice | starred_expression)+ ','?
